@@ -769,7 +769,65 @@ def run (s : St) : List Op → St × List Bool
     let rr := run r.1 rest
     (rr.1, r.2 :: rr.2)
 
+/-! ### the regenerated statement sequence of `applyIdentityJSON`, interpreted
+
+`harness/common/c15_util.go` reads the function body as a list of events; `interp` executes them.  Theorem
+`gen_ident_apply` (Props): the interpretation of the regenerated sequence *is* `apply`, for all inputs — a dropped
+`return ident.Validate()`, a dropped error return or a reordering changes the interpretation. -/
+inductive Ev | decodeId | retErr | setId | b64 | unmarshalKey | setKey | retValidate | retNil | unknown
+  deriving DecidableEq, Repr
+
+structure Frame where
+  st : St
+  err : Bool := false          -- `err != nil`
+  pid : Option Nat := none     -- result of peer.Decode
+  pkb : Bool := false          -- base64 decoded to key bytes
+  pkey : Option Nat := none    -- result of UnmarshalPrivateKey
+
+def interp (i : IdTok) (k : KeyTok) : List Ev → Frame → Option (St × Bool)
+  | [], _ => none
+  | .decodeId :: r, c =>
+    (match i with
+     | .id a => interp i k r { c with pid := some a, err := false }
+     | .bad => interp i k r { c with pid := none, err := true })
+  | .retErr :: r, c => if c.err then some (c.st, false) else interp i k r c
+  | .setId :: r, c => interp i k r { c with st := { c.st with id := c.pid } }
+  | .b64 :: r, c =>
+    (match k with
+     | .badB64 => interp i k r { c with pkb := false, err := true }
+     | _ => interp i k r { c with pkb := true, err := false })
+  | .unmarshalKey :: r, c =>
+    (match k with
+     | .key b => if c.pkb then interp i k r { c with pkey := some b, err := false } else interp i k r { c with pkey := none, err := true }
+     | _ => interp i k r { c with pkey := none, err := true })
+  | .setKey :: r, c => interp i k r { c with st := { c.st with key := c.pkey } }
+  | .retValidate :: _, c => some (c.st, valid c.st)
+  | .retNil :: _, c => some (c.st, true)
+  | .unknown :: _, _ => none
+
 end Ident
+
+/-! ### `config.SetIfNotDefault`: the regenerated arms of its type switch, interpreted -/
+
+/-- does `SetIfNotDefault(src, dest)` assign, for a `src` of Go type `ty` that is / is not the zero value?
+No arm for the type: nothing happens (the function has no default case). -/
+def sindAssigns (arms : List (String × String)) (ty : String) (isZero : Bool) : Bool :=
+  match (arms.find? (·.1 == ty)).map (·.2) with
+  | some g => if g == "ne0" || g == "neEmpty" || g == "isTrue" then !isZero else if g == "always" then true else false
+  | none => false
+
+/-- Go type behind a table `Ty` when the row is copied with SetIfNotDefault -/
+def Ty.goName : Ty → String
+  | .int => "int" | .uint => "uint64" | .float => "float64" | .bool => "bool" | .str => "string" | .dur => "time.Duration"
+  | _ => "?"
+
+/-- `Manager.LoadJSONFileAndEnv` as the regenerated order of its calls: `file` = LoadJSON (Default() first), `env` = ApplyEnvVars -/
+def runOrder [DecidableEq α] (lk : LoadKind) (sk : SaveKind) (zero d file : α) (env : Option α) : List String → α → α
+  | [], cur => cur
+  | c :: r, cur =>
+    if c == "file" then runOrder lk sk zero d file env r (loadScalar lk zero d d file)
+    else if c == "env" then runOrder lk sk zero d file env r (applyEnvScalar lk sk zero d d cur env)
+    else cur
 
 /-! ## `config.DisplayJSON` (config/util.go:126-184, round 8)
 
